@@ -258,7 +258,48 @@ def rule_e(ctx: Ctx) -> None:
     ctx.count("id_calls", n)
 
 
-RULES = [rule_a, rule_b, rule_c, rule_d, rule_e]
+def dead_settings(ctx: Ctx, rule_id: str, bases: list[tuple[str, str]]) -> None:
+    """every UPPERCASE class-level setting of the given base classes that some subclass overrides is read somewhere in the package
+    (attribute load or getattr/hasattr by name); a setting nobody reads any more means the guard that consulted it was dropped"""
+    repo = ctx.repo
+    reads: dict[str, int] = {}
+    for m in repo.modules.values():
+        for a in m.of_type(ast.Attribute):
+            if isinstance(a.ctx, ast.Load) and a.attr.isupper():
+                reads[a.attr] = reads.get(a.attr, 0) + 1
+        for c in m.of_type(ast.Call):
+            if isinstance(c.func, ast.Name) and c.func.id in ("getattr", "hasattr") and len(c.args) >= 2 and isinstance(c.args[1], ast.Constant) and isinstance(c.args[1].value, str):
+                reads[c.args[1].value] = reads.get(c.args[1].value, 0) + 1
+    n = 0
+    for mod, cn in bases:
+        c = repo.cls(mod, cn)
+        flags = [k for k in c.body_assigns() if k.isupper()]
+        over: dict[str, str] = {}
+        for s_ in repo.subclasses(c):
+            for k in s_.body_assigns():
+                if k in flags:
+                    over.setdefault(k, s_.key)
+        for k in flags:
+            if k not in over:
+                continue
+            n += 1
+            if reads.get(k, 0) > 0:
+                ctx.ok(f"{c.key}.{k}|read {reads[k]}x", None)
+            else:
+                ctx.fail(c.module, c.node, c.key, f"{cn}.{k}",
+                         f"the setting {cn}.{k} is overridden (e.g. by {over[k]}) but nothing in the package reads it any more: the branch that consulted it was removed or made "
+                         f"unconditional, so the dialects that set it no longer get their behaviour")
+    ctx.count("overridden_settings", n)
+    ctx.min_instances("overridden_settings", n, 20)
+
+
+def rule_f(ctx: Ctx) -> None:
+    ctx.rule("C10.f", "dialect settings are consulted: every class-level setting of Dialect that at least one dialect overrides (normalisation strategy, pseudo-column and "
+                      "identifier rules, ...) is read somewhere in the package")
+    dead_settings(ctx, "C10.f", [("sqlglot.dialects.dialect", "Dialect")])
+
+
+RULES = [rule_a, rule_b, rule_c, rule_d, rule_e, rule_f]
 EXPLANATION = (
     "Typestate of a straight-line pipeline: the order of the six stage calls, the single threaded variable, own-flag "
     "guards, defaults and dialect/schema threading in qualify() are read from its AST; the error family of every "
